@@ -126,6 +126,13 @@ fn adapter_op<V: crate::backends::Full>(o: &mut Outcome, kind: usize, which: usi
         let kb = &ks.locals[2].bytes;
         let key: [u8; 32] = kb[..].try_into().unwrap();
         let nonce = vec![0x42u8; V::nonce_len()];
+        if !V::assertions() {
+            // v1 / v2 have no assertion piece: nothing may be folded into another piece instead
+            match subject(|| ops::enc::<V>(&keys::local::<V>(kb), &msg, Some(&ft), b"x", &Nonce::Fixed(nonce.clone()))) {
+                Ok(Err(_)) => {}
+                other => o.violate(format!("adapters/{name}/assertion-in-a-version-without{tag}"), format!("sealing with an implicit assertion succeeded in a version whose encoding has no assertion piece: {:?}", other.map(|r| r.is_ok())), json!({})),
+            }
+        }
         let sfx = if suffixed { "c" } else { "" };
         let body = spec::local_encrypt(V::VER, sfx, &key, &nonce, &msg, &ft, &ad);
         let want = join_token(&format!("v{}{sfx}.local.", V::VER), &body, if ft.is_empty() { None } else { Some(&ft) });
